@@ -6,7 +6,7 @@ import "strings"
 // maxLines items over the alphabet, joined by the separator.
 
 var GemtextLines = []string{
-	"=> https://t.example/g1 Lq1 label",
+	"=> https://t.example/g1 label Lq1",
 	"=>https://t.example/g2",
 	"=> https://t.example/g3\tLq3",
 	"=>",
